@@ -26,6 +26,7 @@ for f in sorted(os.listdir(RUNS), key=lambda x: os.path.getmtime(os.path.join(RU
         if r.get("exit") == 2 and any("build" in n for n in r.get("notes", [])):
             continue  # harness was mid-edit when this ran
         item = r["item"].replace("/verif/seeded/", "").replace("/patch.diff", "")
+        item = item[len("seeded/"):] if item.startswith("seeded/") else item
         latest[(item, r["property"])] = r
 
 items = {}
